@@ -37,7 +37,7 @@ var alphabet27 = []string{"a", "e", "x", "0", "1", "9", ".", "+", "-", "'", "\""
 // syntax knows (E, X), a hex-only letter, the remaining operator and bracket
 // characters, further white space, and runes of 2, 3 and 4 bytes plus a
 // truncated one.
-var alphabetB = []string{"E", "X", "f", "7", "0", ".", ";", "'", ">", "*", "%", ",", ")", "]", "|", "\t", "\r", "Z", "-", "ü", "€", "😀", "\xc3", "\xa0", " "}
+var alphabetB = []string{"E", "X", "f", "7", "0", ".", ";", "'", ">", "*", "%", ",", ")", "]", "|", "\t", "\r", "Z", "-", "ü", "€", "😀", "\xc3", "\xa0", " ", "\ufffd"}
 
 // enumStrings calls f for every string over alphabet of length 1..maxLen whose
 // two-symbol prefix is assigned to this shard (strings of length < 2 belong to
